@@ -2,6 +2,7 @@ package main
 
 import (
 	"fmt"
+	"io"
 	"sync"
 
 	"github.com/ulikunitz/xz"
@@ -134,7 +135,25 @@ func checkC17(c *ev.Ctx) {
 		pn := mon.Guard(func() {
 			props := &lzma.Properties{LC: k.LC, LP: k.LP, PB: k.PB}
 			if k.Writer == "xz" {
-				w, err := xz.WriterConfig{Properties: props, DictCap: k.DictCap, BufSize: k.BufSize, BlockSize: k.BlockSize, Matcher: lzma.MatchAlgorithm(k.Matcher)}.NewWriter(sink)
+				cfg := xz.WriterConfig{Properties: props, DictCap: k.DictCap, BufSize: k.BufSize, BlockSize: k.BlockSize, Matcher: lzma.MatchAlgorithm(k.Matcher)}
+				if k.Seed%3 == 1 {
+					// the configuration variable has a history: verified with a small dictionary,
+					// used for another writer, then set to the values of this case
+					cfg = xz.WriterConfig{DictCap: 4096}
+					cfg.Verify()
+					if w0, err := cfg.NewWriter(io.Discard); err == nil {
+						w0.Write([]byte("earlier stream"))
+						w0.Close()
+					}
+					cfg.Properties, cfg.DictCap, cfg.Matcher = props, k.DictCap, lzma.MatchAlgorithm(k.Matcher)
+					if k.BufSize != 0 {
+						cfg.BufSize = k.BufSize
+					}
+					if k.BlockSize != 0 {
+						cfg.BlockSize = k.BlockSize
+					}
+				}
+				w, err := cfg.NewWriter(sink)
 				if err != nil {
 					werr = err
 					return
